@@ -1,10 +1,14 @@
 #!/bin/bash
-# Builds the framework offline from files on disk only.
+# Builds the framework offline from files on disk only (facts, Lean library + model driver, harness).
 set -e
 cd "$(dirname "$0")"
 export GOFLAGS=-mod=mod GOPROXY=off GOSUMDB=off GOTOOLCHAIN=local
-mkdir -p bin evidence replays
+mkdir -p bin evidence replays .build
 (cd gofacts && go build -o ../bin/gofacts .)
 ./bin/gofacts -repo /repo -out /verif/lean
-(cd lean && lake build 2>&1 | tail -5)
+(cd lean && lake build achmodel 2>&1 | tail -3)
+# theorem modules: build what builds; a module that does not build is reported by its own check
+(cd lean && for m in Ach/Props/*.lean; do mod=$(echo "${m%.lean}" | tr / .); lake build "$mod" >/dev/null 2>&1 || echo "setup: note: $mod does not build on this tree"; done)
+cp /repo/go.sum harness/go.sum
+(cd harness && go build -tags verif -o ../bin/harness ./cmd/harness)
 echo "setup: ok"
